@@ -2,7 +2,7 @@
 # confirms the round-4 seeds delivered under /tmp/seed4/<P>/_seed/{a,b} and keeps the confirmed ones as /verif/seeded/<P>-{g,h}
 export SEEDROOT=/tmp/seed4 CONF=/tmp/confirm4
 for P in "$@"; do
-  ( for X in a b; do [ -d $SEEDROOT/$P/_seed/$X ] && /verif/tools/confirm_seed.sh $P $X >/dev/null 2>&1; done ) &
+  ( for X in a b; do [ -d $SEEDROOT/$P/_seed/$X ] && { git -C $SEEDROOT/$P reset -q --hard 2>/dev/null; /verif/tools/confirm_seed.sh $P $X >/dev/null 2>&1; }; done ) &
   while [ $(jobs -r | wc -l) -ge 5 ]; do sleep 2; done
 done
 wait
